@@ -33,14 +33,23 @@
      case   5 5 seed role fkind variant dmode | L payload | L remote_static | opt(dialed)
             | curve table | ed25519 table                  as in kind 1
      trace  5 | class [L id] | miss
-   kind 7 (by-hand stream, harness_c01x: the TLS certificate checks of the QUIC transport on crafted
-   certificates; class 13 = BadDer, 14 = ExtensionValueInvalid, 5 = UnknownIssuer, 8 = wrong peer):
-     case   7 n params.. | ext: 0 / 1 L key L sig / 2 (malformed) / 3 (duplicate) | L spki
-            | intermediates | opt(expected) | curve table | ed25519 table
+   kind 7 (extra stream, harness_c01x: the TLS certificate checks of the QUIC transport on crafted
+   certificates; class 13 = BadDer, 14 = ExtensionValueInvalid, 5 = UnknownIssuer, 8 = wrong peer,
+   15 = UnsupportedCriticalExtension); the certificate's extensions in order:
+     case   7 n params.. | n x (0 other OID, not critical / 1 other OID, critical /
+                                2 libp2p OID, not a SignedKey / 3 L key L sig libp2p OID)
+            | L spki | intermediates | opt(expected) | curve table | ed25519 table
      trace  7 | class [L id] (verify_server_cert) | class [L id] (verify_client_cert) | miss
-   kind 8 (by-hand stream: NoiseContext::with_prologue + get_remote_peer_id, the WebRTC caller,
+   kind 9 (the real TransportManager over a scripted transport: dial_address to `dialed`, then the
+   transport reports ConnectionEstablished for `reported`; mode 2: an inbound connection):
+     case   9 3 seed transport mode | opt(dialed) | L reported
+     trace  9 | 0 L id (next() yields ConnectionEstablished, transport.accept called) / 8 (refused:
+                transport.reject, or the debug assertion of a debug build)
+   kind 8 (extra stream: NoiseContext::with_prologue + get_remote_peer_id, the WebRTC caller,
    against a snow responder; the two prologues are computed from fingerprints by each side):
      case   8 n params.. | L payload | L remote_static | L prologue_litep2p | L prologue_remote
+            | short prefix extra                           the reply handed to get_remote_peer_id: cut to one
+                                                           byte? / the two-byte prefix / bytes appended
             | curve table | ed25519 table
      trace  8 | class [L id] | miss
    kind 4 (negotiate_connection over loopback TCP, honest peers):
@@ -84,7 +93,7 @@ Definition err_class (e : err) : N :=
   match e with
   | EPayload => 3 | EKeyMissing => 4 | EKeyProto => 3 | EKeyType => 6 | EKeyInvalid => 7
   | ESigMissing => 5 | ESigBad => 5 | EMismatch => 8
-  | ETlsNoExt => 13 | ETlsExtValue => 14 | ETlsIssuer => 5
+  | ETlsNoExt => 13 | ETlsExtValue => 14 | ETlsIssuer => 5 | ETlsCritical => 15
   end.
 
 Definition enc_result (r : result) : list N :=
@@ -113,15 +122,16 @@ Record k2 := mkK2 {
 }.
 Record k4 := mkK4 { k4_idD : bytes; k4_idL : bytes; k4_dD : option bytes; k4_dL : option bytes }.
 
-Inductive k7ext := X7None | X7Ext (k sg : bytes) | X7Malformed | X7Dup.
 Record k7 := mkK7 {
-  k7_ext : k7ext; k7_spki : bytes; k7_inter : N; k7_exp : option bytes;
+  k7_ext : list xext; k7_spki : bytes; k7_inter : N; k7_exp : option bytes;
   k7_curve : list (bytes * bool); k7_ver : list (bytes * bytes * bytes * bool)
 }.
-Record k8 := mkK8 { k8_c : k1; k8_proI : bytes; k8_proR : bytes }.
+Record k8 := mkK8 { k8_c : k1; k8_proI : bytes; k8_proR : bytes; k8_short : bool; k8_prefix : N; k8_extra : N }.
+Record k9 := mkK9 { k9_dialed : option bytes; k9_reported : bytes }.
 
 Inductive case :=
-| C1 (c : k1) | C2 (c : k2) | C4 (c : k4) | C5 (c : k1) | C6 (c : k4) | C7 (c : k7) | C8 (c : k8).
+| C1 (c : k1) | C2 (c : k2) | C4 (c : k4) | C5 (c : k1) | C6 (c : k4) | C7 (c : k7) | C8 (c : k8)
+| C9 (c : k9).
 
 Definition p_params : parser unit :=
   let* n := pN in let* _ := prep (N.to_nat (N.min n 16)) pN in pret tt.
@@ -129,6 +139,16 @@ Definition p_params : parser unit :=
 Definition p_curve : parser (bytes * bool) := let* k := pL in let* b := pBool in pret (k, b).
 Definition p_ver : parser (bytes * bytes * bytes * bool) :=
   let* k := pL in let* m := pL in let* s := pL in let* b := pBool in pret (k, m, s, b).
+
+Definition p_xext : parser xext :=
+  let* t := pN in
+  match t with
+  | 0 => pret (XOther false)
+  | 1 => pret (XOther true)
+  | 2 => pret (XP2p None)
+  | 3 => let* k := pL in let* sg := pL in pret (XP2p (Some (k, sg)))
+  | _ => pfail
+  end.
 
 Definition p_case : parser case :=
   let* kind := pN in
@@ -142,20 +162,15 @@ Definition p_case : parser case :=
   | 2 => let* a := pL in let* b := pL in let* s1 := pL in let* s2 := pL in let* s3 := pL in
          let* d1 := pL in let* d2 := pL in let* ew := pL in pret (C2 (mkK2 a b s1 s2 s3 d1 d2 ew))
   | 6 => let* a := pL in let* b := pL in let* x := pOpt in pret (C6 (mkK4 a b x None))
-  | 7 => let* t := pN in
-         let* x := (match t with
-                    | 0 => pret X7None
-                    | 1 => let* k := pL in let* sg := pL in pret (X7Ext k sg)
-                    | 2 => pret X7Malformed
-                    | 3 => pret X7Dup
-                    | _ => pfail
-                    end) in
+  | 7 => let* x := plist p_xext in
          let* spki := pL in let* n := pN in let* e := pOpt in
          let* cv := plist p_curve in let* vt := plist p_ver in
          pret (C7 (mkK7 x spki n e cv vt))
+  | 9 => let* d := pOpt in let* r := pL in pret (C9 (mkK9 d r))
   | 8 => let* pb := pL in let* rs := pL in let* pi := pL in let* pr := pL in
+         let* sh := pBool in let* px := pN in let* ex := pN in
          let* cv := plist p_curve in let* vt := plist p_ver in
-         pret (C8 (mkK8 (mkK1 pb rs None cv vt) pi pr))
+         pret (C8 (mkK8 (mkK1 pb rs None cv vt) pi pr sh px ex))
   | 4 => let* a := pL in let* b := pL in let* x := pOpt in let* y := pOpt in
          pret (C4 (mkK4 a b x y))
   | _ => pfail
@@ -176,7 +191,8 @@ Definition well_formed (c : case) : bool :=
       (len (k2_idL c) =? 32) && bytes_ok (k2_s1 c) && bytes_ok (k2_s2 c) && bytes_ok (k2_s3 c) &&
       bytes_ok (k2_dDL c) && bytes_ok (k2_dLD c) && bytes_ok (k2_early c)
   | C7 c =>
-      (match k7_ext c with X7Ext k sg => bytes_ok k && bytes_ok sg | _ => true end) &&
+      forallb (fun x => match x with XP2p (Some (k, sg)) => bytes_ok k && bytes_ok sg | _ => true end)
+              (k7_ext c) &&
       bytes_ok (k7_spki c) && obytes_ok (k7_exp c) &&
       forallb (fun e => bytes_ok (fst e)) (k7_curve c) &&
       forallb (fun e => match e with (k, m, s, _) => bytes_ok k && bytes_ok m && bytes_ok s end)
@@ -187,6 +203,7 @@ Definition well_formed (c : case) : bool :=
       forallb (fun e => bytes_ok (fst e)) (k1_curve (k8_c c)) &&
       forallb (fun e => match e with (k, m, s, _) => bytes_ok k && bytes_ok m && bytes_ok s end)
               (k1_ver (k8_c c))
+  | C9 c => obytes_ok (k9_dialed c) && bytes_ok (k9_reported c)
   | C4 c | C6 c =>
       bytes_ok (k4_idD c) && bytes_ok (k4_idL c) && (len (k4_idD c) =? 32) &&
       (len (k4_idL c) =? 32) && obytes_ok (k4_dD c) && obytes_ok (k4_dL c)
@@ -277,15 +294,6 @@ Definition run1 (c : k1) : list N :=
 
 (* ---------------------------------------------------------------- kinds 2 and 4 *)
 Definition sub (a b : nat) (l : bytes) : bytes := firstn (b - a) (skipn a l).
-
-(* NoiseContext::read_handshake_message: u16 length, then that many bytes *)
-Definition read_frame (s : bytes) : option (bytes * bytes) :=
-  match s with
-  | hi :: lo :: r =>
-      let n := N.to_nat (hi * 256 + lo) in
-      if (length r <? n)%nat then None else Some (firstn n r, skipn n r)
-  | _ => None
-  end.
 
 Definition is_nil (b : bytes) : bool := match b with [] => true | _ => false end.
 
@@ -423,15 +431,9 @@ Definition run5 (c : k1) : list N :=
   end.
 
 (* kind 7: the TLS certificate decision *)
-Definition tls_ext_of (x : k7ext) : tls_ext :=
+Definition ext_miss (c : k7) (x : xext) : bool :=
   match x with
-  | X7None => TlsNone | X7Dup => TlsDuplicate | X7Malformed => TlsMalformed
-  | X7Ext k sg => TlsExt k sg
-  end.
-
-Definition k7_miss (c : k7) : bool :=
-  match k7_ext c with
-  | X7Ext kb sg =>
+  | XP2p (Some (kb, sg)) =>
       match decode_keymsg kb with
       | Some m =>
           if (k_type m =? 1) && (len (k_data m) =? 32) then
@@ -449,6 +451,7 @@ Definition k7_miss (c : k7) : bool :=
       end
   | _ => false
   end.
+Definition k7_miss (c : k7) : bool := existsb (ext_miss c) (k7_ext c).
 
 Definition run7 (c : k7) : list N :=
   let oc := fun k => match look_curve (k7_curve c) k with Some b => b | None => false end in
@@ -457,9 +460,16 @@ Definition run7 (c : k7) : list N :=
   | Some e =>
       if 0 <? k7_inter c then [7; 10; 10; 0]     (* "libp2p-tls requires exactly one certificate" *)
       else
-        7 :: enc_result (tls_accept oc vf (tls_ext_of (k7_ext c)) (k7_spki c) e) ++
-        enc_result (tls_accept oc vf (tls_ext_of (k7_ext c)) (k7_spki c) None) ++ [b2n (k7_miss c)]
+        7 :: enc_result (tls_accept oc vf (k7_ext c) (k7_spki c) e) ++
+        enc_result (tls_accept oc vf (k7_ext c) (k7_spki c) None) ++ [b2n (k7_miss c)]
   | None => [0]
+  end.
+
+(* kind 9: the manager's comparison behind every transport *)
+Definition run9 (c : k9) : list N :=
+  match dialed_pid (k9_dialed c), V.C18.Model.of_bytes (k9_reported c) with
+  | Some d, Some r => 9 :: enc_result (manager_check d (Accept r))
+  | _, _ => [0]
   end.
 
 (* kind 8: the WebRTC caller — litep2p is the Noise initiator with its prologue, the remote a
@@ -484,7 +494,12 @@ Definition run8 (c : k8) : list N :=
   let L := mkParty 2 4 (k1_pb k) None (k8_proR c) in
   let a2 := DMsg (l_msg2 H_inst KDF_inst pk dhf L (d_msg1 pk D)) in
   let '(_, oD) := d_run (curve_of k) (verify_of k) H_inst KDF_inst pk dhf D a2 in
-  8 :: enc_outcome oD ++ [b2n (k1_miss k)].
+  (* get_remote_peer_id: a reply of fewer than two bytes is InvalidReplyLength (class 10); the
+     two-byte prefix only sizes the output buffer (too small for the payload: snow refuses) and
+     ALL the bytes behind it are the Noise message (anything appended breaks the last tag) *)
+  if k8_short c then [8; 10; b2n (k1_miss k)]
+  else if (k8_prefix c <? len (k1_pb k)) || (0 <? k8_extra c) then [8; 2; b2n (k1_miss k)]
+  else 8 :: enc_outcome oD ++ [b2n (k1_miss k)].
 
 (* the public API: the listener reports nothing unless the connection was established *)
 Definition run6 (c : k4) : list N :=
@@ -506,6 +521,7 @@ Definition run_case (l : list N) : list N :=
   | Some (C6 c) => run6 c
   | Some (C7 c) => run7 c
   | Some (C8 c) => run8 c
+  | Some (C9 c) => run9 c
   | None => [0]
   end.
 
@@ -644,16 +660,22 @@ Definition prop_ok (case trace : list N) : bool :=
       | 7 :: rest =>
           match pall (let* a := p_res in let* b := p_res in let* _ := pN in pret (a, b)) rest with
           | Some (rS, rC) =>
+              (* a real ed25519 verdict `true` for a key with id P over P2P_SIGNING_PREFIX ++ the
+                 certificate's SPKI, key and signature being those of a libp2p extension of the
+                 certificate; that extension is the only one with the libp2p OID and no other
+                 extension is critical *)
               let auth := fun P =>
-                match k7_ext c with
-                | X7Ext kb sg =>
-                    existsb (fun e => match e with
-                                      | (k, m, sg', ok) =>
-                                          ok && beq m (TLS_PREFIX ++ k7_spki c) && beq (id_bytes k) P &&
-                                          infix k kb && beq sg' sg
-                                      end) (k7_ver c)
-                | _ => false
-                end in
+                existsb (fun x => match x with
+                                  | XP2p (Some (kb, sg)) =>
+                                      existsb (fun e => match e with
+                                                        | (k, m, sg', ok) =>
+                                                            ok && beq m (TLS_PREFIX ++ k7_spki c) &&
+                                                            beq (id_bytes k) P && infix k kb && beq sg' sg
+                                                        end) (k7_ver c)
+                                  | _ => false
+                                  end) (k7_ext c) &&
+                (length (filter (fun x => match x with XP2p _ => true | _ => false end) (k7_ext c)) =? 1)%nat &&
+                negb (existsb (fun x => match x with XOther true => true | _ => false end) (k7_ext c)) in
               (if fst rS =? 0 then auth (snd rS) && dialed_ok (k7_exp c) (snd rS) && (k7_inter c =? 0)
                else true) &&
               (if fst rC =? 0 then auth (snd rC) && (k7_inter c =? 0) else true)
@@ -667,6 +689,15 @@ Definition prop_ok (case trace : list N) : bool :=
           match pall (let* a := p_res in let* _ := pN in pret a) rest with
           | Some r =>
               if fst r =? 0 then authentic (k8_c c) (snd r) && beq (k8_proI c) (k8_proR c) else true
+          | None => false
+          end
+      | _ => false
+      end
+  | Some (C9 c) =>
+      match trace with
+      | 9 :: rest =>
+          match pall p_res rest with
+          | Some r => if fst r =? 0 then beq (snd r) (k9_reported c) && dialed_ok (k9_dialed c) (snd r) else true
           | None => false
           end
       | _ => false
